@@ -2,6 +2,7 @@
 Rust ownership gives exactly-once drop everywhere except at the sites that
 step outside it: enumerate those, give each a pairing / dominance obligation."""
 import re
+import common
 
 from c07 import r3 as _unused  # noqa: F401  (C07 decides the guard side)
 from common import pt_deref
@@ -242,6 +243,9 @@ def r1(R1, cfg, F):
         R1.check(ok, cfg, p, 'wrong-type-diverges', '`%s` must panic (wrong_handle_type) rather than return when the type does not match' % p, b.loc())
 
 
+PTR_CAST = common.make_pt(r'^std::ptr::(mut_ptr|const_ptr)::<impl \*(mut|const) T>::(cast|cast_mut|cast_const)$')
+
+
 def r2(R2, cfg, F):
     sb = F.body('entry::swap_any')
     if not sb:
@@ -252,7 +256,7 @@ def r2(R2, cfg, F):
     ok = len(sw) == 1 and len(sz) == 1
     if ok:
         ok = sb.access_path(sw[0].args[2]) == ['call@bb%d' % sz[0].bb] and sb.origins(sz[0].args[0]) == {('arg', 1)} \
-            and sb.origins(sw[0].args[0]) == {('arg', 1)} and sb.origins(sw[0].args[1]) == {('arg', 2)}
+            and sb.origins(sw[0].args[0], passthrough=PTR_CAST) == {('arg', 1)} and sb.origins(sw[0].args[1], passthrough=PTR_CAST) == {('arg', 2)}
     R2.check(ok, cfg, sb.path, 'swaps-size_of_val(a)-bytes-of-a-and-b', 'swap_any must exchange exactly size_of_val(a) bytes between its two operands', sb.loc())
     callers = F.callers_of(r'^entry::swap_any$')
     if len(callers) != 1:
